@@ -26,6 +26,7 @@ class A:
     t: Any = (0, 0)
     o: Any = None
     refs: Any = field(default_factory=list)
+    pairs: Any = field(default_factory=list)
 
     def n_ge(self, k):
         PredicatePlan.tick()          # user code: counted, and may raise when the fault plan says so
@@ -52,6 +53,7 @@ class B:
     t: Any = (0, 0)
     o: Any = None
     refs: Any = field(default_factory=list)
+    pairs: Any = field(default_factory=list)
 
     def n_ge(self, k):
         PredicatePlan.tick()          # user code: counted, and may raise when the fault plan says so
